@@ -62,6 +62,21 @@ class HierDictDocument(DictDocument):
 
         return class_name
 
+    @staticmethod
+    def _get_body_doc(doc, class_name):
+        """Returns the value stored under the method name. The key can be of
+        either string type: MessagePack clients send ``str`` as well as
+        ``bytes`` keys, and ``decompose_incoming_envelope`` accepts both."""
+
+        retval = doc.get(class_name, None)
+        if retval is None and not six.PY2:
+            if isinstance(class_name, bytes):
+                retval = doc.get(class_name.decode('utf8'), None)
+            else:
+                retval = doc.get(class_name.encode('utf8'), None)
+
+        return retval
+
     def get_complex_as(self, attr):
         if attr.complex_as is None:
             return self.complex_as
@@ -98,7 +113,7 @@ class HierDictDocument(DictDocument):
                 class_name, = doc.keys()
 
             if self.ignore_wrappers:
-                doc = doc.get(class_name, None)
+                doc = self._get_body_doc(doc, class_name)
 
             result_message = self._doc_to_object(ctx, body_class, doc,
                                                                  self.validator)
